@@ -323,6 +323,9 @@ GLOBAL_RULES = [
     ('R2', r'(?<![\w:])SeekFrom::', 'vio::SeekFrom::'),
     ('R2', r'\bstd::ops::Bound::', 'vio::Bound::'),
     ('R2', r', RandomState>', '>'),
+    ('R2', r'\bJSONMap<String, JSONValue>', 'JsonMap'),
+    ('R2', r'\bJSONMap::new\(\)', 'JsonMap::new()'),
+    ('R2', r'\bJSONValue\b', 'JsonValue'),
     # D2: async erasure
     ('D2', r'\.await\b', ''),
     ('D2', r'\bread_varint_async\b', 'read_varint'),
